@@ -56,7 +56,7 @@ ASSUMPTIONS = [
     "PathInfo/ERO always carry a payload (to_json needs one); ERO.strict is a bool",
     "MaintenanceEntry: unknown keys are not injected (no tolerance documented); aware datetimes use whole-minute offsets",
 ]
-BUDGET = {"quick": 150000, "thorough": 3000000}
+BUDGET = {"quick": 60000, "thorough": 3000000}
 MIN_LABEL_FRACTION = dict({f"kind:{k}": 0.015 for k in KINDS},
                           **{"falsy-field": 0.15, "list-field": 0.05, "boundary": 0.03, "extras": 0.1,
                              "nothing-set": 0.005, "update-kw": 0.05, "bad-kw": 0.1})
